@@ -32,7 +32,7 @@ ASSUMPTIONS = [
 EXHAUSTIVE = {"quick": True, "thorough": True}
 NCHUNKS = 16
 
-ATOMS = ["T", "F", "R", "P1", "P0", "PC1", "PC0", "SA", "SI", "SAb", "SIx", "M"]
+ATOMS = ["T", "F", "R", "P1", "P0", "PC1", "PC0", "PZ1", "PZ0", "SA", "SI", "SAb", "SIx", "M"]
 POSITIONS = ["cand0", "cand1", "cand2", "parent", "grandparent", "ancestor-fallback", "choose", "enq"]
 LIBMISSING = xs.ImplementationMissingError
 
@@ -71,7 +71,7 @@ def eval_guard(e):
                 return False
             if x == "M":
                 return "missing"
-            return x in ("T", "P1", "PC1", "SA", "SAb")   # SI, SIx, F, P0, PC0 are false
+            return x in ("T", "P1", "PC1", "PZ1", "SA", "SAb")   # SI, SIx, F, P0, PC0, PZ0 are false
         if x[0] == "not":
             v = ev(x[1], True)
             return v if v == "missing" else (not v)
@@ -108,6 +108,10 @@ def to_cfg(e, spelling):
             "P1": {"type": "gP", "params": {"v": 1}}, "P0": {"type": "gP", "params": {"v": 0}},
             "PC1": {"type": "gP", "params": (lambda a: {"v": a["context"]["one"]})},
             "PC0": {"type": "gP", "params": (lambda a: {"v": a["context"]["zero"]})},
+            # params that are present but FALSY (an empty object, a computed empty list): the guard
+            # takes a third argument and must still receive it
+            "PZ1": {"type": "gZ", "params": {}},
+            "PZ0": {"type": "gZ0", "params": (lambda a: [])},
             "SA": {"type": "stateIn", "params": {"state": "#m.a.p.us"}},
             "SAb": {"type": "stateIn", "params": {"state": "p.us"}},
             "SI": {"type": "stateIn", "params": {"state": "#m.b"}},
@@ -183,7 +187,9 @@ def logic(fired):
     return MachineLogic(
         actions={n: mk(n) for n in ("fire", "fallback", "wrong", "probe")},
         guards={"gT": lambda c, e: True, "gF": lambda c, e: False, "gR": gR,
-                "gP": lambda c, e, params: params["v"] == 1})
+                "gP": lambda c, e, params: params["v"] == 1,
+                "gZ": lambda c, e, params: params == {},
+                "gZ0": lambda c, e, params: params != []})
 
 
 def run_one(res: Result, e, spelling, position, key, engine, salt=0):
@@ -305,7 +311,7 @@ def _kind(e):
             e, "stateIn" if e.startswith("S") else "parameterised")
     return e[0] + ("+raising" if _contains(e, "R") else "") + \
         ("+stateIn" if any(_contains(e, s) for s in ("SA", "SI", "SAb", "SIx")) else "") + \
-        ("+params" if any(_contains(e, s) for s in ("P1", "P0", "PC1", "PC0")) else "")
+        ("+params" if any(_contains(e, s) for s in ("P1", "P0", "PC1", "PC0", "PZ1", "PZ0")) else "")
 
 
 def run_chunk(spec):
